@@ -360,7 +360,7 @@ func TestVerifC22(t *testing.T) {
 
 	// ---- PRNG frames ----------------------------------------------------------
 	const batch = 2000
-	batches := r.N(150, 2500)
+	batches := r.N(150, 4500)
 	for bi := 0; bi < batches; bi++ {
 		if !next(fmt.Sprintf("random batch %d", bi)) {
 			continue
